@@ -1,5 +1,6 @@
 import PicoProofs.EndToEnd
 import PicoProofs.Tie
+import PicoProofs.SpecForward
 import PicoModel.Sample
 /-
 C10 — Unknown fields never disturb known ones; captured ones are forwarded intact.
@@ -63,6 +64,71 @@ theorem C10_unmarshal_skips_unknown (S : Schema) (hS : S.supported = true) (id :
     rw [heq, e2] at e1
     exact (Option.some.inj e1).symm
 
+/-- every record the tokenizer accepts — any wire type, nested groups, non-minimal tag — is read back
+as the very same record after being re-emitted as `minimal tag ++ captured value bytes`: the value
+bytes cut out of the input are a complete value (`Wire.consumeFieldValue_take`: the tokenizer reads
+nothing beyond the length it reports) -/
+theorem C10_captured_record_reparses (b : Bytes) (r : Record) (rest : Bytes) (h : parse1 b = some (r, rest))
+    (rest' : Bytes) : parse1 (Wire.tag r.num r.wire ++ r.raw ++ rest') = some (r, rest') :=
+  selfParsing_of_parse1 h rest'
+
+/-- FORWARDING CHAIN, partial: sender → intermediary → receiver for an intermediary whose message
+type captures unrecognized fields and knows none of the sender's fields (a pure forwarder). For
+EVERY well-formed input `b`, every receiver type `idW` and start value: the forwarder decodes `b`,
+and decoding what it re-marshals equals decoding `b` itself — the receiver recovers every field the
+sender wrote. (The general chain, with an intermediary that also knows some of the fields, is not
+proved: it needs the value-level round trip relative to two message types; it is exercised by the
+forward-compatibility chains of correspondence stream M on every run.) -/
+theorem C10_forwarder_chain_partial (S : Schema) (idN idW : Nat) (hf : (S.msg idN).fields = [])
+    (hc : (S.msg idN).capture = true) (n : Nat) (b : Bytes) (rs : List Record) (hr : records n b = some rs)
+    (slots : List Val) (mW : Val) :
+    ∃ v, specUnmarshal S idN b (.msg slots []) = some v ∧
+      specUnmarshal S idW (specEnc S idN v) mW = specUnmarshal S idW b mW :=
+  forwarder_chain S idN idW hf hc n b rs hr slots mW
+
+/-- MACHINE LEVEL of the same chain: the real decoder on the sender's bytes into a fresh forwarder
+message reports no error; the real decoder of the receiver run on the real Marshal of that message
+gives the same verdict and the same value as on the sender's bytes -/
+theorem C10_forwarder_chain_machine_partial (S : Schema) (hS : S.supported = true) (idN idW : Nat)
+    (hf : (S.msg idN).fields = []) (hc : (S.msg idN).capture = true) (n : Nat) (b : Bytes) (rs : List Record)
+    (hr : records n b = some rs) :
+    ∃ dN v, Gen2.unmarshal S idN b (Gen2.zeroMsg S idN) = .ok (dN, v) ∧ dN.err = none ∧
+      ∃ d m d' m', Gen2.unmarshal S idW (Gen2.marshal S idN v) (Gen2.zeroMsg S idW) = .ok (d, m) ∧
+        Gen2.unmarshal S idW b (Gen2.zeroMsg S idW) = .ok (d', m') ∧
+        (d.err = none ↔ d'.err = none) ∧ (d.err = none → m = m') := by
+  have hz : Gen2.zeroMsg S idN = .msg [] [] := by
+    unfold Gen2.zeroMsg Gen2.zeroMsgN; rw [hf]; rfl
+  have hcap := capture_exact S idN hc n b rs [] [] hr (fun r _ => by rw [hf]; rfl)
+  rw [List.nil_append] at hcap
+  obtain ⟨dN, v, hrN, hiffN, hvalN⟩ := Gen2.unmarshal_new_refines_spec S hS idN b
+  rw [hz] at hiffN hvalN
+  have heN : dN.err = none := hiffN.mpr (by rw [hcap]; rfl)
+  have hv := hvalN heN
+  rw [hcap] at hv
+  have hv' := (Option.some.inj hv).symm
+  subst hv'
+  refine ⟨dN, _, hrN, heN, ?_⟩
+  have hwt : wtMsg S false idN (.msg [] (rs.map fun r => Wire.tag r.num r.wire ++ r.raw).flatten) = true := by
+    simp [wtMsg, wtSlots, hf, hc, oneofExclusive]
+  rw [marshal_eq_spec S idN _ hwt]
+  have hout : specEnc S idN (.msg [] (rs.map fun r => Wire.tag r.num r.wire ++ r.raw).flatten)
+      = (rs.map fun r => Wire.tag r.num r.wire ++ r.raw).flatten := by
+    simp [specEnc, hc, hf, encSlots, sortChunks]
+  rw [hout]
+  have heq := specUnmarshal_same_records S idW _ n _ b rs (Gen2.zeroMsg S idW)
+    (records_retag rs (selfParsing_of_records n b rs hr)) hr
+  obtain ⟨d, m, hr1, hiff, hval⟩ := Gen2.unmarshal_new_refines_spec S hS idW
+    (rs.map fun r => Wire.tag r.num r.wire ++ r.raw).flatten
+  obtain ⟨d', m', hr', hiff', hval'⟩ := Gen2.unmarshal_new_refines_spec S hS idW b
+  refine ⟨d, m, d', m', hr1, hr', ?_, ?_⟩
+  · rw [hiff, hiff', heq]
+  · intro he
+    have e1 := hval he
+    have he' : d'.err = none := by rw [hiff', ← heq, e1]; rfl
+    have e2 := hval' he'
+    rw [heq, e2] at e1
+    exact (Option.some.inj e1).symm
+
 /-- non-vacuity: unknown fields of several wire types — a varint, a group holding a varint field, a
 fixed32 with a field number above 63 — each a whole record, each unknown to the message; a capturing
 and a non-capturing message -/
@@ -71,5 +137,12 @@ example : Spec.parse1 [0x7b, 8, 1, 0x7c] = some (⟨15, 3, [8, 1, 0x7c]⟩, []) 
 example : Spec.parse1 [0xa5, 6, 1, 2, 3, 4] = some (⟨100, 5, [1, 2, 3, 4]⟩, []) ∧
     Spec.findField (S1.msg 1).fields 100 = none := by decide +kernel
 example : (S1.msg 0).capture = false ∧ (S1.msg 1).capture = true := by decide +kernel
+
+/-- non-vacuity of the forwarding chain: a supported schema with a pure forwarder type (message 2),
+and a sender input holding a varint field with a non-minimal tag, a group and a fixed32 field -/
+def S3 : Schema := S1 ++ [⟨[], true, false⟩]
+example : (S3.msg 2).fields = [] ∧ (S3.msg 2).capture = true ∧ S3.supported = true := by decide +kernel
+example : records 4 [0xf8, 0x80, 0x00, 1, 0x7b, 8, 1, 0x7c, 0xa5, 6, 1, 2, 3, 4] =
+    some [⟨15, 0, [1]⟩, ⟨15, 3, [8, 1, 0x7c]⟩, ⟨100, 5, [1, 2, 3, 4]⟩] := by decide +kernel
 
 end Pico.Props
